@@ -220,6 +220,17 @@ pub fn c15(thorough: bool, rng: &mut Rng, out: &mut Out) {
             }
         }
     }
+    // every data length 0..=255 (a path chosen by the encoded size must not lose the terminator)
+    for len in 0..=255usize {
+        let d: Vec<u8> = (0..len).map(|i| (i * 7 + len) as u8).collect();
+        write_case(out, 0x0102, 0x42, &d, vec![]);
+        out.stat("write.every-length");
+        if thorough || len % 8 == 2 {
+            let w = enc_nl(0x0102, 0x42, &d);
+            let evs: Vec<String> = (0..(w.len() + 6) / 7).map(|_| "a:7".to_string()).collect();
+            write_case(out, 0x0102, 0x42, &d, evs);
+        }
+    }
     let n = if thorough { 4000 } else { 400 };
     for _ in 0..n {
         let len = random_len(rng);
@@ -386,8 +397,26 @@ fn serial_oracle(out: &mut Out, i: usize, m: &Message<'static>, want_reply: &str
     }
 }
 
+fn c16_every_length(thorough: bool, out: &mut Out) {
+    // the bytes written must be exactly the frame with CRLF whatever the data length: unknown frames of every
+    // length 0..=255 (not paced), and — thorough only, each costs the 30 ms pause — data chunks of every length
+    for len in 0..=255usize {
+        let d: Vec<u8> = (0..len).map(|i| (i * 5 + len) as u8).collect();
+        let mut ms = vec![Message::Unknown(Frame::new(Address(0x0203), MsgType(0x42), Data::try_new(d.clone()).unwrap()))];
+        if thorough {
+            ms.push(sd((len as u16) * 16, &d));
+        }
+        for m in ms {
+            let i = out.case(format!("serial {} | |", show_msg(&m)), true);
+            out.stat("serial.every-length");
+            serial_oracle(out, i, &m, "", &[], false, false);
+        }
+    }
+}
+
 pub fn c16(thorough: bool, rng: &mut Rng, out: &mut Out) {
-    out.rule = "every message kind (hello / query / goodbye / pixels-complete / chunk count over 5 addresses, 6 requests, 6 acks, 13 reports, unknown frames, data chunks of length 0/1/16/255/random) x reply tapes (13 states, 6 acks, unknown, data, malformed, bad checksum, empty, bare CRLF) each followed by extra bytes; a write failure at the first and at a later write call; a read failure; non-trivial = every case; distinct = distinct case line".into();
+    c16_every_length(thorough, out);
+    out.rule = "every message kind (hello / query / goodbye / pixels-complete / chunk count over 5 addresses, 6 requests, 6 acks, 13 reports, unknown frames, data chunks of length 0/1/16/255/random) x reply tapes; unknown frames of every data length 0..=255 (and data chunks of every length in the thorough tier) with no reply due; (13 states, 6 acks, unknown, data, malformed, bad checksum, empty, bare CRLF) each followed by extra bytes; a write failure at the first and at a later write call; a read failure; non-trivial = every case; distinct = distinct case line".into();
     out.exhaustive_note = "kinds x reply tapes complete for the listed parameter values; data chunk cases limited (each sleeps 30 ms)".into();
     let n_sd = if thorough { 40 } else { 10 };
     let kinds = message_kinds(rng, n_sd);
